@@ -34,6 +34,10 @@ def find_core_tokens(string, root):
     in_image = False
     start = 0
     i = 0
+    # matches left over from a scan that did not run to completion (an
+    # exception between this function and InlineCode.find) must not be
+    # attributed to this string
+    del _code_matches[:]
     code_match = code_pattern.search(string)
     while i < len(string):
         if code_match is not None and i == code_match.start():
